@@ -50,6 +50,15 @@ CHECKS = {
         "Trusts harness/lsp.py's codec; no lone surrogates; paths absolute and normalised.",
         "DESIGN.md §3 C16",
     ),
+    "C17": (
+        "exploration",
+        "Hypothesis-generated adversarial workspaces (payload grammar x injection points) under a runtime audit-hook monitor, plus real process trees with an injected sitecustomize monitor",
+        "Every payload shape x injection point is indexed, edited, saved and queried while sys.addaudithook records code evaluation, "
+        "process, network and file-mutation events; any evaluation of marked text, any such side effect, a sentinel file or a changed "
+        "workspace snapshot is a violation. The monitor self-tests that it sees a planted eval/open/unlink before each run.",
+        "Python-level audit events only (fortls has no C extension); debug_log and update check off; payload grammar is finite though parametrised.",
+        "DESIGN.md §3 C17",
+    ),
 }
 
 NOT_YET = "check not built yet in this session (work in progress; see DESIGN.md §3 for the planned generator and oracle)"
